@@ -138,7 +138,7 @@ type pCase struct {
 	Tags    []string        `json:"tags,omitempty"` // free-form labels from the spec (perturbation kinds, non-trivial markers)
 }
 
-var qualRe = regexp.MustCompile(`\b([A-Za-z_][A-Za-z0-9_]*)\.([A-Z][A-Za-z0-9_]*)`)
+var qualRe = regexp.MustCompile(`\b([A-Za-z_][A-Za-z0-9_]*)\.([A-Za-z_][A-Za-z0-9_]*)`)
 
 // localType strips the package qualifier when the type is used inside its own package and reports imports needed.
 // importPrefix is the import path under which the case's packages live (caseModule, or caseModule/<id> inside a shared module)
